@@ -326,17 +326,15 @@ func rulesFromJaccard(c *Ctx, r *Report) {
 	okZero, okClamp := false, false
 	formula := ""
 	nRet := 0
-	instrs(f, func(in ssa.Instruction) {
-		rt, ok := in.(*ssa.Return)
-		if !ok || len(rt.Results) != 1 {
-			return
+	for _, rc := range returnCases(s, f) {
+		if len(rc.vals) != 1 {
+			continue
 		}
 		nRet++
-		g := guardOf(s, rt.Block(), nil)
-		e := s.expr(rt.Results[0])
-		if g == "(0 == P0)" && e.Op == "const" && e.Leaf == "1" {
+		e := s.expr(rc.vals[0])
+		if rc.guard == "(0 == P0)" && e.Op == "const" && e.Leaf == "1" {
 			okZero = true
-			return
+			continue
 		}
 		if e.Op == "builtin:min" && len(e.Args) == 2 {
 			for i := 0; i < 2; i++ {
@@ -346,7 +344,7 @@ func rulesFromJaccard(c *Ctx, r *Report) {
 				}
 			}
 		}
-	})
+	}
 	r.check(okZero, "FJ", fname(f), "j = 0 gives 1", c.pos(f.Pos()), "FromJaccard returns 1 when the Jaccard similarity is 0", "no `jac == 0 => return 1` case: ln(0) is -Inf")
 	r.check(okClamp && nRet == 2, "FJ", fname(f), "clamped to 1", c.pos(f.Pos()), "every other result is min(·, 1): the distance lies in [0, 1] and is continuous with the j = 0 case", "the result is not clamped with min(·, 1): for small non-zero similarities the distance exceeds 1 (and is non-monotone against the j = 0 case)")
 	want := "(un:-(call:math.Log(((2 * P0) / (1 + P0)))) / conv:float64(P1))"
